@@ -18,8 +18,22 @@ import (
 )
 
 func refsMCcfg(fam string, maxLen, depth int, alphabet []string, export, anchors bool) string {
-	return fmt.Sprintf("SPECIFICATION Spec\nCONSTANTS\n  Fam = %q\n  MaxLen = %d\n  Alphabet = %s\n  Depth = %d\n  Export = %s\n  AnchorsAsCoded = %s\n  OtherComp = \"other\"\n  IgnoredComp = \"ignored\"\nINVARIANTS FoldOK PrefixOK RegexOK GroupsOK ExportInv\nCHECK_DEADLOCK FALSE\n",
-		fam, maxLen, quoteSet(alphabet), depth, tlaBool(export), tlaBool(anchors))
+	return fmt.Sprintf("SPECIFICATION Spec\nCONSTANTS\n  Fam = %q\n  MaxLen = %d\n  Alphabet = %s\n  Depth = %d\n  MaxSyms = %d\n  Export = %s\n  AnchorsAsCoded = %s\n  OtherComp = \"other\"\n  IgnoredComp = \"ignored\"\nINVARIANTS FoldOK PrefixOK RegexOK GroupsOK ExportInv\nCHECK_DEADLOCK FALSE\n",
+		fam, maxLen, quoteSet(alphabet), depth, groupSyms(depth), tlaBool(export), tlaBool(anchors))
+}
+
+// groupSyms bounds the forests of the groups family (measured: depth 3 with <= 8 of the 15 symbols is
+// 3.0e5 instances in 6 s, <= 10 symbols 2.6e6 in 49 s, <= 11 symbols 5.7e6 in 129 s).
+var groupSymsThorough = false
+
+func groupSyms(depth int) int {
+	if depth <= 2 {
+		return 7
+	}
+	if groupSymsThorough {
+		return 10
+	}
+	return 8
 }
 
 func runRefsMC(c *Ctx, name, cfg string, onLine func(tag, payload string)) *tlcrun.Result {
@@ -394,7 +408,7 @@ func forestScenarios(rng *rand.Rand, sample int) []refScenario {
 
 func checkC06(c *Ctx) {
 	c.Ev.Level = "model_checking"
-	c.Ev.Rule = "RefsMC: all include/exclude sequences up to length 4(5) x all match vectors (coded nil-start fold = last matching rule); all prefixes x names over {a,b,/} (coded test = component-boundary definition), each pair put to the real git.PrefixFilter; all regexp ASTs to depth 2 x all strings (full-match), each put to the real git.RegexpFilter; all refgroup forests to depth 2(3) (@GROUP = members of the group); random CLI scenarios (options of every kind and spelling, refgroups from gitconfig, ROOTs) run with --show-refs and judged by TLC (RefsJudge); distinct = distinct instances / (args, refs, config)"
+	c.Ev.Rule = "RefsMC: all include/exclude sequences up to length 4(5) x all match vectors (coded nil-start fold = last matching rule); all prefixes x names over {a,b,/} (coded test = component-boundary definition), each pair put to the real git.PrefixFilter; all regexp ASTs to depth 2 x all strings (full-match), each put to the real git.RegexpFilter; all refgroup forests to depth 3 with at most 8 (10) symbols (@GROUP = members of the group); random CLI scenarios (options of every kind and spelling, refgroups from gitconfig, ROOTs) run with --show-refs and judged by TLC (RefsJudge); distinct = distinct instances / (args, refs, config)"
 	env := newScanEnv(c, true, true)
 	ml, depth := 4, 2
 	if !quick(c) {
@@ -404,10 +418,8 @@ func checkC06(c *Ctx) {
 	// the same fold for option lists of any length: inductive invariant by Apalache (base + step)
 	apalacheCheck(c, "RefSelApa", "base", "--init=Init", "--inv=IndInv", "--length=0")
 	apalacheCheck(c, "RefSelApa", "step", "--init=IndInit", "--inv=IndInv", "--length=1")
-	gd := 2
-	if !quick(c) {
-		gd = 3
-	}
+	gd := 3
+	groupSymsThorough = !quick(c)
 	runRefsMC(c, "groups", refsMCcfg("groups", ml, gd, []string{"a"}, false, false), nil)
 	apiFilters(c, env.api, ml, depth)
 	rng := rand.New(rand.NewSource(c.Seed))
@@ -434,12 +446,10 @@ func checkC06(c *Ctx) {
 
 func checkC07(c *Ctx) {
 	c.Ev.Level = "model_checking"
-	c.Ev.Rule = "RefsMC groups: all parent-closed refgroup forests to depth 2(3), both sibling orders, every assignment of own-filter outcomes (none/pass/fail; leaves have rules): coded collectSymbols = declarative Tally, no symbol twice; random CLI scenarios (nested groups, implicit parents, augmented built-ins, overlapping rules, display names, selections) in three output formats, tallies judged by TLC (RefsJudge), table rows and JSON v2 items compared with them; chains of nested groups to depth 24; distinct = distinct instances / (args, refs, config)"
+	c.Ev.Rule = "RefsMC groups: all parent-closed refgroup forests to depth 3 with at most 8 (thorough: 10) of the 15 symbols, both sibling orders, every assignment of own-filter outcomes (none/pass/fail; leaves have rules): coded collectSymbols = declarative Tally, no symbol twice; random CLI scenarios (nested groups, implicit parents, augmented built-ins, overlapping rules, display names, selections) in three output formats, tallies judged by TLC (RefsJudge), table rows and JSON v2 items compared with them; chains of nested groups to depth 24; distinct = distinct instances / (args, refs, config)"
 	env := newScanEnv(c, true, false)
-	gd := 2
-	if !quick(c) {
-		gd = 3
-	}
+	gd := 3
+	groupSymsThorough = !quick(c)
 	runRefsMC(c, "groups", refsMCcfg("groups", 3, gd, []string{"a"}, false, false), nil)
 	rng := rand.New(rand.NewSource(c.Seed))
 	n := 120
